@@ -23,11 +23,12 @@ def _cases(chk):
             ml, mu = orders[ci % len(orders)]
             ci += 1
             s = gen.rand_qsm(rng, kind, n, ml, mu, "int")
-            tail = [(), (2,), (2, 2)][ci % 3]        # rank 1, 2, 3 right-hand sides
-            x = rng.integers(-3, 4, size=(n,) + tail).astype(float)
             r = 1 + ci % 3
             xl = rng.integers(-3, 4, size=(r, n)).astype(float)
-            cases.append(dict(spec=s, x=x, xl=xl))
+            # rank 1, 2, 3 and 4 right-hand sides for EVERY kind (a trailing axis of length n included: a misaligned broadcast would go unnoticed otherwise)
+            for tail in ((), (2,), (2, 2), (n, 2), (1, 2), (2, n, 1)):
+                x = rng.integers(-3, 4, size=(n,) + tail).astype(float)
+                cases.append(dict(spec=s, x=x, xl=xl))
     return cases
 
 
@@ -87,7 +88,11 @@ def impl_outputs(case):
     A = gen.qsm_impl(s)
     x = jnp.asarray(case["x"])
     xl = jnp.asarray(case["xl"])
-    return dict(dense=np.asarray(A.to_dense()), ax=np.asarray(A @ x), xa=np.asarray(xl @ A), va=np.asarray(xl[0] @ A),
+    try:
+        ax = np.asarray(A @ x)
+    except Exception:  # noqa: BLE001  (reported by the comparison below: the shape of the sentinel never matches)
+        ax = np.full((1,), np.nan)
+    return dict(dense=np.asarray(A.to_dense()), ax=ax, xa=np.asarray(xl @ A), va=np.asarray(xl[0] @ A),
                 tdense=np.asarray(A.T.to_dense()), shape=tuple(A.shape), tshape=tuple(A.T.shape))
 
 
